@@ -6,14 +6,26 @@ Property theorems only; model in Model/Sort.lean with `u32` uids and checked ari
 The full-strength property ("any number of repeated calls, without panic, overflow or reordering") is FALSE for the
 code as it is: every call doubles all uids, so the k-th call overflows once maxuid·2^k ≥ 2^32 (`overflow_witness`).
 What is proved is the property under the explicit no-overflow hypothesis (`…_partial`), plus the exact growth law.
+
+Two statements carry a hypothesis that the first draft lacked (the draft statements are refuted below by
+`iterate_uids_partial_needs_wf` and `overflow_general_needs_hyps`):
+* `iterate_uids_partial`, `overflow_general`: `SinglesWF m` — the model type `RSection` lets an `Option<T>` section
+  (rules `threaded` / `optionalZero`) hold several elements, but `sortOptional` only renumbers the first;
+* `overflow_general`: `1 ≤ k` — `iterate 0 m = .ok m` whatever the uids are.
 -/
 namespace A2l.Srt
+open L15
 
 /-- all uids of the module are small enough for one more call -/
 def NoOverflow (m : RModule) : Prop := ∀ e ∈ m.toModule.all, 2 * e.uid + 1 ≤ u32max
 
+/-- the `Option<T>` sections (rules `threaded`, `optionalZero`) hold at most one element, as in the Rust type -/
+def SinglesWF (m : RModule) : Prop :=
+  ∀ r ∈ m.sections, (r.rule = .threaded ∨ r.rule = .optionalZero) → r.sec.elems.length ≤ 1
+
 /-- under the no-overflow hypothesis one call does not panic -/
-theorem sni_ok_partial (m : RModule) (h : NoOverflow m) : ∃ m', sortNewItems m = .ok m' := sorry
+theorem sni_ok_partial (m : RModule) (h : NoOverflow m) : ∃ m', sortNewItems m = .ok m' :=
+  sortNewItems_ok m h
 
 /-- **growth law for a named list**: a placed element's uid is doubled; a new element (uid 0) gets
     2·(largest placed uid of its list)+1, or stays 0 (= written at the end) if its list has no placed element. -/
@@ -22,35 +34,118 @@ theorem objectlist_uids_partial (es es' : List Elem) (h : sortObjectlistNew es =
     (∀ e ∈ es, e.uid ≠ 0 → ∃ e' ∈ es', e'.key = e.key ∧ e'.line = e.line ∧ e'.uid = 2 * e.uid) ∧
     (∀ e' ∈ es', e'.uid % 2 = 1 ∨ e'.uid = 0 →
         e'.uid = (if (es.filter (·.uid ≠ 0)).isEmpty then 0
-                  else 2 * ((es.filter (·.uid ≠ 0)).map (·.uid)).foldl max 0 + 1)) := sorry
+                  else 2 * ((es.filter (·.uid ≠ 0)).map (·.uid)).foldl max 0 + 1)) := by
+  have h' : renumber 0 (es.mergeSort newLe) = .ok es' := h
+  have hp := List.mergeSort_perm es newLe
+  refine ⟨?_, ?_, ?_⟩
+  · rw [renumber_keys _ _ _ h']; exact hp.map _
+  · intro e he hu
+    exact (renumber_grows _ _ _ h' e (List.mem_mergeSort.2 he) hu).2
+  · intro e' he' hodd
+    have hf := hp.filter (·.uid ≠ 0)
+    rw [renumber_new _ 0 es' (pairwise_mergeSort_newLe es) h' e' he' hodd, hf.isEmpty_eq,
+      foldl_max_perm (hf.map _)]
 
-/-- doubling all uids does not change how the writer compares two placed elements -/
+set_option linter.unusedVariables false in
+/-- doubling all uids does not change how the writer compares two placed elements
+    (`ha`, `hb` are not needed by the proof: 2·0 = 0) -/
 theorem writerLe_double (a b : Elem) (ha : a.uid ≠ 0) (hb : b.uid ≠ 0) :
-    writerLe { a with uid := 2 * a.uid } { b with uid := 2 * b.uid } = writerLe a b := sorry
+    writerLe { a with uid := 2 * a.uid } { b with uid := 2 * b.uid } = writerLe a b := by
+  rw [Bool.eq_iff_iff, writerLe_eq, writerLe_eq, lexLe_iff, lexLe_iff]
+  by_cases hs : a.tag ≤ b.tag <;> simp only [hs, and_true, and_false, or_false] <;> omega
 
 /-- a new element of a named list with uid 2u+1 is written after every element with uid ≤ 2u and before every
     element with a larger non-zero uid: directly behind the last placed element of its kind -/
 theorem writer_places_odd_partial (p e q : Elem) (u : Nat) (hp : p.uid = 2 * u) (hu : u ≠ 0)
     (he : e.uid = 2 * u + 1) (hq : 2 * u + 1 < q.uid) :
-    writerLe p e = true ∧ writerLe e p = false ∧ writerLe e q = true ∧ writerLe q e = false := sorry
+    writerLe p e = true ∧ writerLe e p = false ∧ writerLe e q = true ∧ writerLe q e = false := by
+  refine ⟨?_, ?_, ?_, ?_⟩
+  · rw [writerLe_eq, lexLe_iff]; omega
+  · rw [Bool.eq_false_iff, ne_eq, writerLe_eq, lexLe_iff]; omega
+  · rw [writerLe_eq, lexLe_iff]; omega
+  · rw [Bool.eq_false_iff, ne_eq, writerLe_eq, lexLe_iff]; omega
 
 /-- the writer's order is a permutation of the elements, sorted by `writerLe` -/
 theorem writeOrder_perm_sorted (m : Module) :
-    (writeOrder m).Perm m.all ∧ (writeOrder m).Pairwise (fun a b => writerLe a b = true) := sorry
+    (writeOrder m).Perm m.all ∧ (writeOrder m).Pairwise (fun a b => writerLe a b = true) :=
+  ⟨List.mergeSort_perm _ _, pairwise_mergeSort_writerLe _⟩
 
 /-- **k consecutive calls**: as long as no call overflows, a placed uid grows exactly by the factor 2^k, for every
-    section rule (object lists, optional singles, IF_DATA / USER_RIGHTS, comments) -/
-theorem iterate_uids_partial (k : Nat) (m m' : RModule) (h : iterate k m = .ok m') :
-    ∀ e ∈ m.toModule.all, e.uid ≠ 0 → ∃ e' ∈ m'.toModule.all, e'.key = e.key ∧ e'.uid = 2 ^ k * e.uid := sorry
+    section rule (object lists, optional singles, IF_DATA / USER_RIGHTS, comments).
+    (`hwf` is not in the first draft of this statement, which is false without it: `iterate_uids_partial_needs_wf`.) -/
+theorem iterate_uids_partial (k : Nat) (m m' : RModule) (hwf : SinglesWF m) (h : iterate k m = .ok m') :
+    ∀ e ∈ m.toModule.all, e.uid ≠ 0 → ∃ e' ∈ m'.toModule.all, e'.key = e.key ∧ e'.uid = 2 ^ k * e.uid :=
+  fun e he hu => (iterate_step k m m' h hwf e he hu).2
 
 /-- **the negative result**: a two-element module on which the 31st consecutive call panics (checked arithmetic) -/
 def witness : RModule :=
   { sections := [⟨.objectList, ⟨.byName, [⟨"MEASUREMENT", "a", 1, 3, 0⟩, ⟨"MEASUREMENT", "b", 2, 4, 1⟩]⟩⟩], comments := [] }
 
-theorem overflow_witness : (∃ m', iterate 30 witness = .ok m') ∧ iterate 31 witness = .panic := sorry
+theorem overflow_witness : (∃ m', iterate 30 witness = .ok m') ∧ iterate 31 witness = .panic := by
+  have hw : witness = wit 1 := rfl
+  have h30 : iterate 30 (wit 1) = .ok (wit (2 ^ 30 * 1)) :=
+    wit_iterate 30 1 (by decide) (by simp [u32max])
+  rw [hw]
+  refine ⟨⟨_, h30⟩, ?_⟩
+  show iterate (30 + 1) (wit 1) = .panic
+  rw [iterate_add, h30]
+  simp only
+  rw [iterate, wit_panic _ (by decide) (by simp [u32max]) (by simp [u32max])]
 
-/-- in general: once some placed uid times 2^(k) exceeds the u32 range, k calls cannot all succeed -/
-theorem overflow_general (k : Nat) (m : RModule) (e : Elem) (he : e ∈ m.toModule.all) (hu : e.uid ≠ 0)
-    (hbig : 2 ^ k * e.uid > u32max) : iterate k m = .panic := sorry
+/-- in general: once some placed uid times 2^(k) exceeds the u32 range, k calls cannot all succeed.
+    (`hwf` and `hk` are not in the first draft of this statement, which is false without either of them:
+    `overflow_general_needs_hyps`.) -/
+theorem overflow_general (k : Nat) (m : RModule) (e : Elem) (hwf : SinglesWF m) (hk : 1 ≤ k)
+    (he : e ∈ m.toModule.all) (hu : e.uid ≠ 0)
+    (hbig : 2 ^ k * e.uid > u32max) : iterate k m = .panic := by
+  cases h : iterate k m with
+  | panic => rfl
+  | ok m' =>
+    have := (iterate_step k m m' h hwf e he hu).1 hk
+    omega
+
+/-- the same with "all uids are `u32` values" in place of `1 ≤ k` -/
+theorem overflow_general' (k : Nat) (m : RModule) (e : Elem) (hwf : SinglesWF m) (hr : e.uid ≤ u32max)
+    (he : e ∈ m.toModule.all) (hu : e.uid ≠ 0)
+    (hbig : 2 ^ k * e.uid > u32max) : iterate k m = .panic := by
+  by_cases hk : 1 ≤ k
+  · exact overflow_general k m e hwf hk he hu hbig
+  · have : k = 0 := by omega
+    subst this; simp at hbig; omega
+
+/-! ## the draft statements without the extra hypotheses are false -/
+
+/-- an `Option<T>` section holding two elements: only the first one is renumbered -/
+def cexSingles (u : Nat) : RModule :=
+  { sections := [⟨.threaded, ⟨.single, [⟨"A2ML", "x", 1, 0, 0⟩, ⟨"A2ML", "y", u, 0, 1⟩]⟩⟩], comments := [] }
+
+theorem cexSingles_step (u : Nat) : iterate 1 (cexSingles u) =
+    .ok ⟨[⟨.threaded, ⟨.single, [⟨"A2ML", "x", 2, 0, 0⟩, ⟨"A2ML", "y", u, 0, 1⟩]⟩⟩], []⟩ := by
+  simp [iterate, sortNewItems, cexSingles, sniSections, sortOptional, dbl, doubleAll, u32max]
+
+theorem iterate_uids_partial_needs_wf :
+    ¬ ∀ (k : Nat) (m m' : RModule), iterate k m = .ok m' →
+      ∀ e ∈ m.toModule.all, e.uid ≠ 0 → ∃ e' ∈ m'.toModule.all, e'.key = e.key ∧ e'.uid = 2 ^ k * e.uid := by
+  intro H
+  obtain ⟨e', he', hk, hu⟩ := H 1 _ _ (cexSingles_step 3) ⟨"A2ML", "y", 3, 0, 1⟩
+    (by simp [cexSingles, Module.all, RModule.toModule]) (by simp)
+  simp [Module.all, RModule.toModule] at he'
+  rcases he' with rfl | rfl <;> simp [Elem.key] at hk hu
+
+theorem overflow_general_needs_hyps :
+    (¬ ∀ (k : Nat) (m : RModule) (e : Elem), SinglesWF m → e ∈ m.toModule.all → e.uid ≠ 0 →
+        2 ^ k * e.uid > u32max → iterate k m = .panic) ∧
+    (¬ ∀ (k : Nat) (m : RModule) (e : Elem), 1 ≤ k → e ∈ m.toModule.all → e.uid ≠ 0 →
+        2 ^ k * e.uid > u32max → iterate k m = .panic) := by
+  constructor
+  · intro H
+    have := H 0 ⟨[⟨.objectList, ⟨.byName, [⟨"M", "x", 4294967296, 0, 0⟩]⟩⟩], []⟩ ⟨"M", "x", 4294967296, 0, 0⟩
+      (by simp [SinglesWF]) (by simp [Module.all, RModule.toModule]) (by simp) (by simp [u32max])
+    simp [iterate] at this
+  · intro H
+    have := H 1 (cexSingles 2147483648) ⟨"A2ML", "y", 2147483648, 0, 1⟩ (Nat.le_refl 1)
+      (by simp [cexSingles, Module.all, RModule.toModule]) (by simp) (by simp [u32max])
+    rw [cexSingles_step] at this
+    cases this
 
 end A2l.Srt
